@@ -106,7 +106,7 @@ pub fn exec(project: &Project) -> Value {
 
 pub fn gen(out: &mut Out, _sub: &str) {
     let mut rng = Rng::new(out.seed ^ 0xC14);
-    let n = out.size(400, 12_000);
+    let n = out.size(300, 12_000);
     let seeds: Vec<Rng> = (0..n).map(|_| rng.fork()).collect();
     let evs = crate::par::map(seeds, 4, |mut r| {
         let two = r.chance(1, 2);
